@@ -23,13 +23,10 @@ Print Assumptions C12_state_cannot_influence_results.
 
 (* a history of calls against one evaluator: the model's evaluator state is its options only, so the i-th answer is
    the answer a fresh evaluator gives *)
-Definition call := (env * bsprov * ctx * flag)%type.
-Definition answer re_ok re_match o (x : call) : res outcome :=
-  let '(E, P, c, f) := x in run re_ok re_match o E P c f.
 Theorem C12_history : forall re_ok re_match o (h : list call) i x,
   nth_error h i = Some x ->
   nth_error (map (answer re_ok re_match o) h) i = Some (answer re_ok re_match o x).
-Proof. intros. apply map_nth_error. assumption. Qed.
+Proof. exact history_answers. Qed.
 Print Assumptions C12_history.
 
 (* ---- source level (gen/Effects.v is regenerated from the repository by the go/ssa translator on every run) ---- *)
